@@ -172,6 +172,7 @@ func runC02(p *Prog, r *Report) {
 	c02Identity(p, r, pools)
 	c02Ownership(p, r, pools)
 	c02InnerLocked(p, r)
+	c02Options(p, r)
 	// R7: every pool change resets the rotation state, so the selection loop never runs on a level computed for another pool (shared with C01.R2)
 	r.Borrow(p, runC01, map[string]string{"C01.R2": "C02.R7"}, nil)
 	// R8: the sweep re-arms the level exactly at level <= 0, so a level of 0 (at which zero-weight servers qualify) is never swept (shared with C01.R7)
@@ -404,6 +405,60 @@ func rbMirrorAndReset(p *Prog, r *Report, pools []poolInfo, rule string) {
 					r.Paths++
 					r.Check(bad == nil, rule, what+": a failed add is undone in the wrapped balancer", p.InstrPos(call), "every failing return after the wrapped balancer accepted the server passes its RemoveServer", "a failing return is reachable after the wrapped balancer accepted the server without removing it there again"+posOf(p, bad)+": the server keeps receiving traffic although the add failed and the rebalancer does not know it")
 				}
+			}
+		}
+		// a failed call leaves no record behind: once the shadow list was changed (directly, or by a helper on
+		// the paths where that helper succeeds) no failing return is reachable
+		if mn == "UpsertServer" {
+			for _, c := range Calls(m) {
+				call, ok := c.(*ssa.Call)
+				if !ok {
+					continue
+				}
+				h := call.Common().StaticCallee()
+				if h == nil || !p.InModule(h) || recvNamed(h) == nil || recvNamed(h).Obj() != rb.Obj() || h == resetFn || !shadow.May(h) {
+					continue
+				}
+				ei := errorResultIndex(h.Signature)
+				// the helper itself: no failing return after its own shadow store
+				helperClean := true
+				for _, b := range h.Blocks {
+					for _, in := range b.Instrs {
+						if !shadow.Is(in) {
+							continue
+						}
+						for x := range Reach(h, in, nil, nil) {
+							if ret, ok := x.(*ssa.Return); ok && ei >= 0 {
+								if isNil, known := returnErrIsNil(ret, ei); known && !isNil {
+									helperClean = false
+								}
+							}
+						}
+					}
+				}
+				okEdge := func(e Edge) bool { return true }
+				if helperClean && ei >= 0 {
+					nts := NilTests(m, resultValue(call, ei))
+					okEdge = func(e Edge) bool {
+						for _, t := range nts {
+							if t.NonNil.B == e.B && t.NonNil.K == e.K {
+								return false
+							}
+						}
+						return true
+					}
+				}
+				var bad *ssa.Return
+				for x := range Reach(m, call, nil, okEdge) {
+					if ret, ok := x.(*ssa.Return); ok {
+						if isNil, known := returnErrIsNil(ret, errIdx); known && !isNil {
+							bad = ret
+						}
+					}
+				}
+				r.Paths++
+				r.Check(bad == nil, rule, what+": no failing return after the rebalancer recorded the server", p.InstrPos(call), "after the record was created only successful returns are reachable",
+					"a failing return is reachable after the rebalancer's own record was created"+posOf(p, bad)+": the add is reported as failed but the record stays, and the next reset() pushes it into the wrapped balancer as a live server")
 			}
 		}
 		// ordering: no shadow-list store before the inner call; reset only after the shadow update
@@ -797,4 +852,91 @@ func mutantsC02() []Mutant {
 		{Name: "identity-trims-slash", File: "roundrobin/rr.go", Old: "return a.Path == b.Path && a.Host == b.Host && a.Scheme == b.Scheme", New: "return strings.TrimSuffix(a.Path, \"/\") == strings.TrimSuffix(b.Path, \"/\") && a.Host == b.Host && a.Scheme == b.Scheme", More: []Edit{{"roundrobin/rr.go", "import (\n", "import (\n\t\"strings\"\n"}}, Expect: "C02.R4"},
 		{Name: "rearm-only-below-zero", File: "roundrobin/rr.go", Old: "\t\t\tif r.currentWeight <= 0 {", New: "\t\t\tif r.currentWeight < 0 {", Expect: "C02.R8"},
 	}
+}
+
+// c02Options (R9): the pool only holds what add/update calls that SUCCEEDED put there. A server option
+// (func(*server) error) that reports an error leaves the record untouched — no store into the record
+// reaches a failing return — because the update path applies options directly to the live record; and the
+// default weight is only given to a freshly built record, never to an existing one (an update to weight 0
+// must drain the server, not restore the default).
+func c02Options(p *Prog, r *Report) {
+	srv := namedRole(p, "roundrobin", "server")
+	rr := p.Named("roundrobin", "RoundRobin")
+	if srv == nil || rr == nil {
+		r.Anchor("C02.R9", "roundrobin.server / RoundRobin", "types not found")
+		return
+	}
+	n := 0
+	for _, fn := range p.PkgFuncs("roundrobin") {
+		if fn.Blocks == nil || fn.Signature.Recv() != nil || fn.Signature.Params().Len() != 1 || fn.Signature.Results().Len() != 1 {
+			continue
+		}
+		if derefNamed(fn.Signature.Params().At(0).Type()) != srv || errorResultIndex(fn.Signature) != 0 {
+			continue
+		}
+		n++
+		r.Fn(FName(fn))
+		var bad *ssa.Return
+		for _, b := range fn.Blocks {
+			for _, in := range b.Instrs {
+				st, ok := in.(*ssa.Store)
+				if !ok {
+					continue
+				}
+				if nt, _, base, ok := fieldOf(st.Addr); !ok || nt != srv || base != ssa.Value(fn.Params[0]) {
+					continue
+				}
+				for x := range Reach(fn, st, nil, nil) {
+					if ret, ok := x.(*ssa.Return); ok {
+						if isNil, known := returnErrIsNil(ret, 0); known && !isNil {
+							bad = ret
+						}
+					}
+				}
+			}
+		}
+		r.Check(bad == nil, "C02.R9", "roundrobin server option "+FName(fn)+": a refused option changes nothing", p.FuncPos(fn), "no store into the record reaches a failing return",
+			"the option stores into the server record and can still return an error"+posOf(p, bad)+": a refused update leaves the invalid value (e.g. a negative weight) in the live pool")
+	}
+	r.Floor("C02.R9", n, 1, "server option closures")
+	// default weight only for fresh records
+	defF := fieldByRole(rr, "defaultWeight", isPlainBasic(types.Int), nil)
+	nDef := 0
+	for _, fn := range p.Methods(rr) {
+		for _, b := range fn.Blocks {
+			for _, in := range b.Instrs {
+				st, ok := in.(*ssa.Store)
+				if !ok {
+					continue
+				}
+				nt, _, base, ok := fieldOf(st.Addr)
+				if !ok || nt != srv {
+					continue
+				}
+				fromDefault := false
+				if u, ok := stripConv(st.Val).(*ssa.UnOp); ok {
+					if n2, f2, _, ok := fieldOf(u.X); ok && n2 == rr && f2 == defF {
+						fromDefault = true
+					}
+				}
+				if g := globalOf(st.Val); g != "" && strings.Contains(strings.ToLower(g), "default") {
+					fromDefault = true
+				}
+				if c, ok := stripConv(st.Val).(*ssa.Const); ok && c.Value != nil && !c.IsNil() {
+					// a named constant default (defaultWeight = 1) is folded: a store of a non-zero constant weight outside an option
+					if k, ok := constInt(c); ok && k != 0 && k != -1 {
+						fromDefault = true
+					}
+				}
+				if !fromDefault {
+					continue
+				}
+				nDef++
+				_, fresh := stripConv(base).(*ssa.Alloc)
+				r.Check(fresh, "C02.R9", "roundrobin.(*RoundRobin)."+fn.Name()+": the default weight is given to new records only", p.InstrPos(st), "the record is allocated in this call",
+					"the default weight is stored into an existing record: updating a server to weight 0 (draining it) silently restores the default weight, the server keeps receiving traffic")
+			}
+		}
+	}
+	r.Floor("C02.R9", nDef, 1, "default-weight stores")
 }
